@@ -6,6 +6,7 @@ import (
 
 	"github.com/tidwall/btree"
 	"github.com/tidwall/geojson"
+	"github.com/tidwall/geojson/geo"
 	"github.com/tidwall/geojson/geometry"
 	"github.com/tidwall/rtree"
 	"github.com/tidwall/tile38/internal/deadline"
@@ -426,13 +427,42 @@ func (c *Collection) geoSearch(
 	return alive
 }
 
+// searchRect returns the rectangle that the spatial index is searched with
+// for a Within / Intersects query object. For a circle, obj.Rect() is the
+// bounding box of its polygon approximation (an ellipse in lat/lon), which is
+// narrower than the disc that Circle.Contains / Intersects test points against
+// with the haversine distance; the rectangle is therefore widened to also
+// cover the geodetic bounding box of the disc. The exact predicate still
+// filters the candidates.
+func searchRect(obj geojson.Object) geometry.Rect {
+	rect := obj.Rect()
+	if circle, ok := obj.(*geojson.Circle); ok && circle.Meters() > 0 {
+		center := circle.Center()
+		minLat, minLon, maxLat, maxLon :=
+			geo.RectFromCenter(center.Y, center.X, circle.Meters())
+		if minLon < rect.Min.X {
+			rect.Min.X = minLon
+		}
+		if minLat < rect.Min.Y {
+			rect.Min.Y = minLat
+		}
+		if maxLon > rect.Max.X {
+			rect.Max.X = maxLon
+		}
+		if maxLat > rect.Max.Y {
+			rect.Max.Y = maxLat
+		}
+	}
+	return rect
+}
+
 func (c *Collection) geoSparse(
 	obj geojson.Object, sparse uint8,
 	iter func(o *object.Object) (match, ok bool),
 ) bool {
 	matches := make(map[string]bool)
 	alive := true
-	c.geoSparseInner(obj.Rect(), sparse, func(o *object.Object) (match, ok bool) {
+	c.geoSparseInner(searchRect(obj), sparse, func(o *object.Object) (match, ok bool) {
 		ok = true
 		if !matches[o.ID()] {
 			match, ok = iter(o)
@@ -516,7 +546,7 @@ func (c *Collection) Within(
 			return match, ok
 		})
 	}
-	return c.geoSearch(obj.Rect(), func(o *object.Object) bool {
+	return c.geoSearch(searchRect(obj), func(o *object.Object) bool {
 		count++
 		if count <= offset {
 			return true
@@ -557,7 +587,7 @@ func (c *Collection) Intersects(
 			return match, ok
 		})
 	}
-	return c.geoSearch(gobj.Rect(), func(o *object.Object) bool {
+	return c.geoSearch(searchRect(gobj), func(o *object.Object) bool {
 		count++
 		if count <= offset {
 			return true
